@@ -1,5 +1,6 @@
 import PPProofs.Lemmas.PRHeapDeep
 import PPProofs.Lemmas.PRHeapDeepMemo
+import PPProofs.Lemmas.PRHeapDeepMemoRel
 /-!
 # C11 — `ParseResults.deepcopy()` of NESTED groups, at every depth (heap model)
 
@@ -26,9 +27,9 @@ What is proved, for ALL heaps / objects / depths / mutation sequences:
 
 Not modelled here: container tokens (results.py:598-605: a `MutableMapping`/`Iterable` token is rebuilt, groups in it
 deep-copied) — `HVal` has scalars and references only.  For `copy.deepcopy`/pickle (section (5) below) separation
-and frames are proved (`copyModule_deep_fresh`, `copyModule_deep_frame`); that the memoised copy SHOWS the
-original's views at every depth is not proved on the heap model (value level, one object: `PP.PR.pickle_roundtrip`;
-nested: the `copy-preserves` oracle of harness/props/c11.py).
+and frames are proved (`copyModule_deep_fresh`, `copyModule_deep_frame`) and the list view (`copyModule_deep_as_list`);
+that the memoised copy shows the original's NAME view at every depth is not proved on the heap model (value level,
+one object: `PP.PR.pickle_roundtrip`; nested: the `copy-preserves` oracle of harness/props/c11.py).
 -/
 namespace PP.PRHeap
 
@@ -275,6 +276,19 @@ theorem copyModule_deep_fresh (f : Nat) (h : Heap α) (o : Nat) (hd : FD h.next 
   refine ⟨a1, b1, c1, fun e he => (r1.occ _ (q2 e he)).1, fun ho => ?_⟩
   have := (FD.reach ho f hd).1
   omega
+
+/-- **(5″) the list view survives `copy.deepcopy` / pickle at every depth**: `as_list()` of the copy is `as_list()`
+    of the original, to every observation depth; and the original still shows what it showed. -/
+theorem copyModule_deep_as_list (f : Nat) (h : Heap α) (o : Nat) (hd : FD h.next h f o) (k : Nat) :
+    asListN k (copyModuleDeep f h o).1 (copyModuleDeep f h o).2 = asListN k h o ∧
+    ∀ y d, TWF h d y → asListN k (copyModuleDeep f h o).1 y = asListN k h y := by
+  have hI0 : Inv h.next (⟨h, [], []⟩ : DS α) :=
+    ⟨fun c hc => (by obtain ⟨_, hk⟩ := hc; cases hk), fun c hc => (by obtain ⟨_, hk⟩ := hc; cases hk)⟩
+  have hB0 : Below h.next h (⟨h, [], []⟩ : DS α).h := ⟨Nat.le_refl _, fun _ _ => ⟨rfl, rfl, rfl, rfl⟩⟩
+  have hM0 : MRel h.next h (⟨h, [], []⟩ : DS α) := ⟨fun _ _ _ hk => (by cases hk), fun _ _ hk => (by cases hk)⟩
+  obtain ⟨m1, m2⟩ := deepObjN_rel h.next h f ⟨h, [], []⟩ o hI0 hB0 hd hM0
+  obtain ⟨_, r2, _⟩ := deepObjN_spec h.next h f ⟨h, [], []⟩ o hI0 hB0 hd
+  exact ⟨m1.asList k o _ m2, fun y d hw => asListN_agree (fun i hi => r2.objs i hi) (fun i hi => r2.lists i hi) k d y hw⟩
 
 /-- **(5′) frames, names included**: after `c = copy.deepcopy(r)` (or a pickle round trip), any sequence of own
     mutations — tokens or names — of any object reachable from `c` by any route leaves the view (tokens, names,
